@@ -770,13 +770,29 @@ func (s *SMT) GetMerkleProof(k []byte) ([]*lib.Node, lib.ErrorI) {
 // VerifyProof verifies a Sparse Merkle Tree proof for a given value
 // reconstructing the root hash and comparing it against the provided root hash
 // depending on the proof type (membership or non-membership)
-func (s *SMT) VerifyProof(k []byte, v []byte, validateMembership bool, root []byte, proof []*lib.Node) (bool, lib.ErrorI) {
+func (s *SMT) VerifyProof(k []byte, v []byte, validateMembership bool, root []byte, proof []*lib.Node) (valid bool, err lib.ErrorI) {
+	// a malformed proof must never crash the verifier
+	defer func() {
+		if r := recover(); r != nil {
+			valid, err = false, ErrInvalidMerkleTreeProof()
+		}
+	}()
 	// shorthand for the length of the proof slice
 	proofLen := len(proof)
 	// the proof slice must contain at least two nodes: the leaf node and its sibling
 	if proofLen < 2 {
 		return false, ErrInvalidMerkleTreeProof()
 	}
+	// every proof node must carry a well-formed node key no longer than the tree depth
+	for _, n := range proof {
+		if n == nil || !validNodeKeyBytes(n.Key, s.keyBitLength) {
+			return false, ErrInvalidMerkleTreeProof()
+		}
+	}
+	// the target key the proof is claimed to be about
+	target := newNodeKey(crypto.Hash(k), s.keyBitLength)
+	// the number of bits in the key of the last reconstructed parent (must be the root: zero)
+	rootPrefixBits := -1
 	// The target is always the first value in the proof. For membership
 	// proofs, it represents the actual value being verified. For non-membership proofs,
 	// it indicates the potential location of the node. The initial root hash
@@ -841,12 +857,29 @@ func (s *SMT) VerifyProof(k []byte, v []byte, validateMembership bool, root []by
 		// (GCP) of their children
 		nodeKey := new(key).fromBytes(proof[i].Key)
 		gcp := new(key)
-		// calculate the GCP between the node and the sibling based on the length of
-		// the least significant bits to avoid out of bounds errors
-		if currentKey.totalBits() < currentKey.totalBits() {
-			currentKey.greatestCommonPrefix(new(int), gcp, nodeKey)
+		// calculate the GCP between the node and the sibling, bounded by the shorter of the two keys
+		// to avoid out of bounds errors
+		gcpPos := new(int)
+		if currentKey.totalBits() < nodeKey.totalBits() {
+			nodeKey.greatestCommonPrefix(gcpPos, gcp, currentKey)
 		} else {
-			nodeKey.greatestCommonPrefix(new(int), gcp, currentKey)
+			currentKey.greatestCommonPrefix(gcpPos, gcp, nodeKey)
+		}
+		// the parent must branch exactly where its children diverge, with the sibling on the side the proof claims
+		// (the bit count is taken from the position reached: an empty prefix and the 1-bit key '0' share an encoding)
+		gcpBits := *gcpPos
+		rootPrefixBits = gcpBits
+		if gcpBits >= currentKey.totalBits() || gcpBits >= nodeKey.totalBits() {
+			return false, ErrInvalidMerkleTreeProof()
+		}
+		pathSide := currentKey.bitAt(gcpBits)
+		if pathSide == nodeKey.bitAt(gcpBits) || (proof[i].Bitmask == LeftChild) != (pathSide == RightChild) {
+			return false, ErrInvalidMerkleTreeProof()
+		}
+		// the proof must be about the target key: every ancestor on the proven path is a prefix of the target and the
+		// path continues on the side selected by the target's next bit; otherwise the proof says nothing about this key
+		if !gcp.isPrefixOfN(target, gcpBits) || target.bitAt(gcpBits) != pathSide {
+			return false, nil
 		}
 		// update the current key to the parent key
 		currentKey = gcp
@@ -868,23 +901,26 @@ func (s *SMT) VerifyProof(k []byte, v []byte, validateMembership bool, root []by
 	if !bytes.Equal(hash, root) {
 		return false, nil
 	}
-	// calculate the key to traverse the tree
-	smt.target = &node{Key: newNodeKey(crypto.Hash(k), smt.keyBitLength)}
+	// the reconstructed path must end at the root (the only node with the empty prefix)
+	if rootPrefixBits != 0 {
+		return false, nil
+	}
 	// make sure the target is valid
+	smt.target = &node{Key: target}
 	if err := smt.validateTarget(smt.target); err != nil {
 		return false, err
 	}
-	// reset the traversal variables
-	smt.reset()
-	// navigates the tree downward
-	if err := smt.traverse(); err != nil {
-		return false, err
+	// the proven node (proof[0]) is where the traversal towards the target ends: either the target itself (membership)
+	// or the insertion point, which must diverge from the target (an ancestor of the target would prove nothing)
+	provenKey := new(key).fromBytes(proof[0].Key)
+	nodeExists := target.equals(provenKey)
+	if !nodeExists && provenKey.isPrefixOf(target) {
+		return false, nil
 	}
 	// Verify whether the key exists in the tree and what kind of proof is being validated
 	// (membership or non-membership).
 	// if the key does not exist in the tree and the proof is for membership or
 	// if the key exists in the tree and the proof is for non-membership, return false
-	nodeExists := smt.target.Key.equals(smt.gcp)
 	if (!nodeExists && validateMembership) || (nodeExists && !validateMembership) {
 		return false, nil
 	}
@@ -986,6 +1022,34 @@ func (k *key) greatestCommonPrefix(bitPos *int, gcp *key, current *key) {
 		// if the bits match, add to the common prefix
 		gcp.addBit(bit1)
 	}
+}
+
+// validNodeKeyBytes() checks that encoded node key bytes are well-formed: at least one data byte plus the meta byte, a
+// left-padding count that fits the final data byte, and no more bits than the tree depth
+func validNodeKeyBytes(b []byte, maxBits int) bool {
+	if len(b) < 2 || b[len(b)-1] > 7 {
+		return false
+	}
+	if int(b[len(b)-1])+bits.Len8(b[len(b)-2]) > 8 {
+		return false
+	}
+	return (&key{key: b}).totalBits() <= maxBits
+}
+
+// isPrefixOf() returns true if every bit of k is a leading bit of other
+func (k *key) isPrefixOf(other *key) bool { return k.isPrefixOfN(other, k.totalBits()) }
+
+// isPrefixOfN() returns true if the first n bits of k are the leading bits of other
+func (k *key) isPrefixOfN(other *key, n int) bool {
+	if n > other.totalBits() {
+		return false
+	}
+	for i := 0; i < n; i++ {
+		if k.bitAt(i) != other.bitAt(i) {
+			return false
+		}
+	}
+	return true
 }
 
 // bitAt() returns the bit value <0 or 1> at a 0 indexed position left to right (MSB)
